@@ -75,6 +75,17 @@ Theorem c15_reawait_rejoins : forall s g v, await_resume s = Some v ->
 Proof. exact reawait_rejoins. Qed.
 Print Assumptions c15_reawait_rejoins.
 
+(* Run level.  A listener g whose script is `for(;;) co_await e;`, subscribed while the state is alive, and a driver that
+   never discards the collector's result inside a coroutine (ordinary code, or co_await of the result): for EVERY op
+   sequence that follows (any other listeners/callbacks with any scripts arriving and leaving, handle copies and drops,
+   pauses), every accepted collector call delivers its value to g inside that very op: g misses none. *)
+Theorem c15_reawait_misses_none : forall g s r ops,
+  alive s = true -> not_ready (queue s) -> get (tab s) g = None ->
+  Forall (disc_op (m_coro s)) ops ->
+  none_missed g (fst (step s (OSpawn g 0 false r))) ops.
+Proof. exact reawait_misses_none. Qed.
+Print Assumptions c15_reawait_misses_none.
+
 (* Subscribers on other threads against the collector's exchanges, every schedule, any number of subscribers and
    exchanges, every CAS attempt its own step: the rounds the collector took plus the chain contain exactly the
    subscribers whose CAS succeeded, each exactly once (never lost, never doubled); so a subscriber that published
@@ -117,3 +128,12 @@ Example c15_nonvacuous :
   delivs (o_ev (snd (step s (OEmit 0 true 8)))) = [(2%nat, 8); (1%nat, 8); (5%nat, 8)] /\
   strong s = 1%nat /\ freeds (o_ev (snd (step s ODrop))) = [2%nat].
 Proof. vm_compute. repeat split; try reflexivity. intros it [H|[]]. subst it. reflexivity. Qed.
+
+(* non-vacuity of c15_reawait_misses_none: the initial state meets its hypotheses (both driver modes) *)
+Example c15_reawait_nonvacuous : forall coro vd,
+  alive (st0 coro vd) = true /\ not_ready (queue (st0 coro vd)) /\ get (tab (st0 coro vd)) 7 = None /\
+  Forall (disc_op (m_coro (st0 coro vd))) [OSpawn 2 1 true 0; OConnect 3 2; OEmit 0 coro 5; OEmit 2 coro 6; OCopy; ODrop; OEmit 1 coro 8].
+Proof.
+  intros coro vd. split; [reflexivity|]. split; [intros ? []|]. split; [reflexivity|].
+  destruct coro; (repeat (apply Forall_cons; [cbn; auto|])); apply Forall_nil.
+Qed.
